@@ -171,6 +171,25 @@ fn dec_json(cx: &mut Ctx, key: &LocalKey, ct: &[u8], tag: &[u8], nonce: &[u8], a
     }
 }
 
+/// the authentication tag RFC 7518 prescribes for the two AES-CBC-HMAC algorithms (None for the others / an odd key)
+fn rfc7518_tag(alg: &str, key: &[u8], aad: &[u8], iv: &[u8], ct: &[u8]) -> Option<Vec<u8>> {
+    use hmac::{Hmac, Mac};
+    let al = ((aad.len() as u64) * 8).to_be_bytes();
+    match alg {
+        "a128cbchs256" if key.len() == 32 => {
+            let mut m = <Hmac<sha2::Sha256> as Mac>::new_from_slice(&key[..16]).ok()?;
+            m.update(aad); m.update(iv); m.update(ct); m.update(&al);
+            Some(m.finalize().into_bytes()[..16].to_vec())
+        }
+        "a256cbchs512" if key.len() == 64 => {
+            let mut m = <Hmac<sha2::Sha512> as Mac>::new_from_slice(&key[..32]).ok()?;
+            m.update(aad); m.update(iv); m.update(ct); m.update(&al);
+            Some(m.finalize().into_bytes()[..32].to_vec())
+        }
+        _ => None,
+    }
+}
+
 fn op_enc(cx: &mut Ctx, key: &LocalKey, msg: &[u8], nonce: &[u8], aad: &[u8]) -> Value {
     let alg = cx.alg.clone();
     let nl = nonce_len(&alg);
@@ -208,6 +227,11 @@ fn op_enc(cx: &mut Ctx, key: &LocalKey, msg: &[u8], nonce: &[u8], aad: &[u8]) ->
         }
     }
     if !random && n != nonce { cx.fail(format!("c12:layout:{}:returned nonce differs from the given nonce", alg), json!({})); }
+    // RFC 7518 section 5.2.2.1, computed here with the hmac / sha2 crates (nothing of askar): T = first half of
+    // HMAC(MAC_KEY, A ‖ IV ‖ E ‖ AL), AL = 64-bit big-endian bit length of A — also for EMPTY associated data
+    if let Some(want) = rfc7518_tag(&alg, &cx.key, aad, &n, &ct) {
+        if want != tag { cx.fail(format!("c12:tag-differs-from-rfc7518:{}:aad{}", alg, if aad.is_empty() { "=empty" } else { ">0" }), json!({"want": hex::encode(&want), "got": hex::encode(&tag)})); }
+    }
     match guarded(cx, "dec", || key.aead_decrypt((&ct[..], &tag[..]), &n, aad)) {
         Ok(Ok(pt)) if pt.as_ref() == msg => {}
         Ok(Ok(_)) => cx.fail(format!("c12:roundtrip:{}:decrypt(encrypt(m)) != m", alg), json!({"len": msg.len()})),
